@@ -220,4 +220,53 @@ example : (run { queued := 0, onExc := false, prot := [], states := [0, 1], init
     [.begin 0 0 0, .evstart 0 0, .begin 1 1 0, .evstart 1 0, .cb 0 0, .decide 1 [0], .cb 0 0]).isSome = false := by
   decide
 
+/-! ### dispatch: events started together are independent root tasks
+
+`machine.dispatch(ev)` gathers `model.ev()` for every model; started outside any event, every gathered call
+runs in its own task with an empty `current_context`, i.e. each is a root call (`begin t t m`).  The gather
+itself keeps no machine state, so in the model a dispatch is just its per-model `begin` labels, and what one
+child does when it ends — in particular when it raises — is the `ret` / `raised` step below: it touches
+nothing of the other children. -/
+
+/-- **a raising (or returning) sibling leaves the others alone**: when trigger call `t` ends — with a result
+or an exception — no event changes phase or flag (nothing is cancelled, nothing is aborted), no queue changes
+(no pending event of any model is discarded), every other call keeps its status, and the registry loses at
+most the entry of `t` itself. -/
+theorem C08_sibling_end_isolated (c : Cfg) (s s' : St) (t : Nat) (l : Label)
+    (hl : (∃ b, l = .ret t b) ∨ (∃ x, l = .raised t x)) (h : step c s l = some s') :
+    s'.phase = s.phase ∧ s'.flag = s.flag ∧ s'.queue = s.queue ∧ s'.drainer = s.drainer ∧
+    s'.cur = s.cur ∧ s'.mstate = s.mstate ∧
+    (∀ r, r ≠ t → s'.call r = s.call r) ∧
+    (∀ m r, r ≠ t → ((m, r) ∈ s'.reg ↔ (m, r) ∈ s.reg)) := by
+  have key : s' = endCall s t := by
+    rcases hl with ⟨b, rfl⟩ | ⟨x, rfl⟩
+    · simp only [step] at h; unfold stepRet at h; split at h
+      · cases h; rfl
+      · cases h
+    · simp only [step] at h; unfold stepRaised at h; split at h
+      · cases h; rfl
+      · cases h
+  subst key
+  refine ⟨rfl, rfl, rfl, rfl, rfl, rfl, fun r hr => by simp [endCall, upd_ne _ _ _ _ hr], ?_⟩
+  intro m r hr
+  simp only [endCall]
+  split
+  · constructor
+    · exact fun hm => List.mem_of_mem_erase hm
+    · intro hm
+      exact (List.mem_erase_of_ne (by intro e; exact hr (by cases e; rfl))).2 hm
+  · exact Iff.rfl
+
+/-- … and the failing event itself (`evend` with outcome ≠ 0) changes the phase of no other event and, by
+`C08_fail_clears_own_queue`, no other queue: only a `decide` step ever delivers a cancellation. -/
+theorem C08_fail_touches_own_event_only (c : Cfg) (s s' : St) (t m o : Nat)
+    (h : step c s (.evend t m o) = some s') : ∀ e, e ≠ t → s'.phase e = s.phase e ∧ s'.flag e = s.flag e := by
+  simp only [step] at h
+  intro e he
+  have hf : (finished s t).phase e = s.phase e ∧ (finished s t).flag e = s.flag e := by
+    refine ⟨(finished_fields s t).2.2.1 e he, ?_⟩
+    unfold finished; simp only; split <;> rfl
+  unfold stepEvend at h
+  step_split h <;> exact hf
+
 end TM
